@@ -7,6 +7,7 @@
        AssertionError the code raises.
    Executable definitions only; proofs live in Proofs/C08*.v. *)
 From Coq Require Import ZArith List Bool.
+From Coq Require String.
 From BNP Require Import Base.Prims.
 Import ListNotations.
 Open Scope Z_scope.
@@ -162,20 +163,39 @@ Definition bg_pileup_model (I : list iv) (L : Z) : option (list Z) :=
   let r := dedupe (cum_from 0 s0) in
   if fst (last r (0, 0)) =? L then Some (expand (removelast r) L) else None.
 
+(* ---------- named per-element kernels; Bridge/C08.v proves each equal to the definition regenerated from the
+   source (Gen/C08.v).  A vectorised NumPy expression over equally shaped arrays is read per element. ---------- *)
+Definition m_merge_sorted_pair (a b : Z) : bool := a <=? b.                 (* start[:-1] <= start[1:] *)
+Definition m_merge_shift (d : Z) (l : list Z) : list Z := if 0 <? d then map (fun e => e + d) l else l.
+Definition m_merge_unshift (d : Z) (l : list Z) : list Z := if 0 <? d then map (fun e => e - d) l else l.
+Definition m_merge_new_run (next_start shifted_prev_stop : Z) : bool := shifted_prev_stop <? next_start.
+Definition m_mask_keep (s e : Z) : bool := negb (s =? e).
+Definition m_overlap_term (stop_i start_next : Z) : Z := Z.max (stop_i - start_next) 0.
+Definition m_intersect_keep (stop_i start_next : Z) : bool := start_next <? stop_i.
+Definition m_intersect_piece (stop_i start_next : Z) : iv := (start_next, stop_i).
+Definition m_cell_00 (a b : bool) : bool := a && b.
+Definition m_cell_01 (a b : bool) : bool := a && negb b.
+Definition m_cell_10 (a b : bool) : bool := negb a && b.
+Definition m_cell_11 (a b : bool) : bool := negb a && negb b.
+Definition m_jaccard_num (a b c d : Z) : Z := a.
+Definition m_jaccard_den (a b c d : Z) : Z := (a + b + c + d) - d.
+Definition m_forbes_num (a b c d : Z) : Z := a * (a + b + c + d).
+Definition m_forbes_den (a b c d : Z) : Z := (a + b) * (a + c).
+
 (* ---------- merge_intervals (intervals.py:260-294) ---------- *)
 Definition merge_model (d : Z) (I : list iv) : option (list iv) :=
   match I with
   | [] => Some []
   | _ =>
     let starts := map fst I in
-    if negb (sortedb Z.leb starts) then None else
+    if negb (sortedb m_merge_sorted_pair starts) then None else
     let stops0 := max_accumulate (map snd I) in
-    let stops := if 0 <? d then map (fun e => e + d) stops0 else stops0 in
-    let valid := zip_with (fun s p => p <? s) (tl starts) stops in       (* start[1:] > stops[:-1] *)
+    let stops := m_merge_shift d stops0 in
+    let valid := zip_with m_merge_new_run (tl starts) stops in       (* start[1:] > stops[:-1] *)
     let new_start := mask_select (true :: valid) starts in
     let new_stop0 := mask_select (valid ++ [true]) stops in
-    let new_stop := if 0 <? d then map (fun e => e - d) new_stop0 else new_stop0 in
-    if all_true (zip_with (fun s p => p <? s) (tl new_start) new_stop)
+    let new_stop := m_merge_unshift d new_stop0 in
+    if all_true (zip_with m_merge_new_run (tl new_start) new_stop)
     then Some (combine new_start new_stop) else None
   end.
 
@@ -191,7 +211,7 @@ Definition mask_model (I : list iv) (size : Z) : option (list bool) :=
   | [] => from_intervals_mask [] size
   | _ => match merge_model 0 (isort pos_leb I) with
          | None => None
-         | Some mg => from_intervals_mask (filter (fun i => negb (fst i =? snd i)) mg) size
+         | Some mg => from_intervals_mask (filter (fun i => m_mask_keep (fst i) (snd i)) mg) size
          end
   end.
 
@@ -199,11 +219,11 @@ Definition mask_model (I : list iv) (size : Z) : option (list bool) :=
 Definition count_overlap_model (A B : list iv) : Z :=
   let starts := isort Z.leb (map fst A ++ map fst B) in
   let stops := isort Z.leb (map snd A ++ map snd B) in
-  sumZ (zip_with (fun e s => Z.max (e - s) 0) stops (tl starts)).      (* stops[:-1] - starts[1:] *)
+  sumZ (zip_with m_overlap_term stops (tl starts)).      (* stops[:-1] - starts[1:] *)
 Definition intersect_model (A B : list iv) : list iv :=
   let all := isort pos_leb (A ++ B) in
   let stops := isort Z.leb (map snd all) in
-  filter (fun p => fst p <? snd p) (zip_with (fun e s => (s, e)) stops (tl (map fst all))).
+  filter (fun p => m_intersect_keep (snd p) (fst p)) (zip_with m_intersect_piece stops (tl (map fst all))).
 
 (* ---------- unique_intersect (intervals.py:328-331) ---------- *)
 Definition unique_intersect_model (A B : list iv) (size : Z) : option (list iv) :=
@@ -217,19 +237,19 @@ Definition count_true (l : list bool) : Z := sumZ (map b2z l).
 Definition contingency_model (A B : list iv) (size : Z) : option (Z * Z * Z * Z) :=
   match mask_model A size, mask_model B size with
   | Some ma, Some mb =>
-      Some (count_true (zip_with andb ma mb), count_true (zip_with andb ma (map negb mb)),
-            count_true (zip_with andb (map negb ma) mb), count_true (zip_with andb (map negb ma) (map negb mb)))
+      Some (count_true (zip_with m_cell_00 ma mb), count_true (zip_with m_cell_01 ma mb),
+            count_true (zip_with m_cell_10 ma mb), count_true (zip_with m_cell_11 ma mb))
   | _, _ => None
   end.
 (* Geometry.jaccard works on the two masks directly *)
 Definition jaccard_model (A B : list iv) (size : Z) : option (Z * Z) :=
   match contingency_model A B size with
-  | Some (a, b, c, d) => Some (a, (a + b + c + d) - d)
+  | Some (a, b, c, d) => Some (m_jaccard_num a b c d, m_jaccard_den a b c d)
   | None => None
   end.
 Definition forbes_model (A B : list iv) (size : Z) : option (Z * Z) :=
   match contingency_model A B size with
-  | Some (a, b, c, d) => Some (a * (a + b + c + d), (a + b) * (a + c))
+  | Some (a, b, c, d) => Some (m_forbes_num a b c d, m_forbes_den a b c d)
   | None => None
   end.
 
@@ -249,6 +269,30 @@ Definition forbes_stream_model := stream_similarity forbes_model.
    The code at the pinned commit calls lexsort((start, chromosome)) — the stop is not a key there. *)
 Definition key2_leb (a b : tiv) : bool :=
   (t_tag a <? t_tag b) || ((t_tag a =? t_tag b) && (t_start a <=? t_start b)).
+(* the order a list of column names (primary key first) defines; an unknown column gives None *)
+Import String.     (* only from here on: string literals; List's concat / length are not used below *)
+Definition field (k : String.string) (t : tiv) : option Z :=
+  if String.eqb k "chromosome"%string then Some (t_tag t)
+  else if String.eqb k "start"%string then Some (t_start t)
+  else if String.eqb k "stop"%string then Some (t_stop t) else None.
+Fixpoint leb_of_keys (ks : list String.string) (a b : tiv) : option bool :=
+  match ks with
+  | [] => Some true
+  | k :: r => match field k a, field k b, leb_of_keys r a b with
+              | Some x, Some y, Some rest => Some ((x <? y) || ((x =? y) && rest))
+              | _, _, _ => None
+              end
+  end.
+(* sorted((key(chromosome), start, stop, i) ...): the trailing index makes the sort stable *)
+Definition sort_tuple_keys : list String.string := ["chromosome"; "start"; "stop"; "index"]%string.
+(* np.lexsort((stop, start, chromosome)): primary key last in the call, first here *)
+Definition sort_lex_keys : list String.string := ["chromosome"; "start"; "stop"]%string.
+(* Geometry.sort: np.lexsort((stop, start)) on global coordinates (global start = chromosome offset + start) *)
+Definition geom_sort_keys : list String.string := ["start"; "stop"]%string.
+(* count_overlap sorts both concatenated arrays *)
+Definition count_overlap_sorted : list String.string := ["starts"; "stops"]%string.
+(* extend_to_size: the strand symbol that selects the forward branch (tag 1 in the cases) *)
+Definition extend_forward_symbol : String.string := "+"%string.
 Definition sort_full_model (I : list tiv) : list tiv := isort key3_leb I.
 Definition sort_lex_pinned (I : list tiv) : list tiv := isort key2_leb I.
 Definition sort_lex_fixed (I : list tiv) : list tiv := isort key3_leb I.
